@@ -354,6 +354,96 @@ class GroupByNative:
 PROTOCOLS = {"groupby": GroupByNative}
 
 
+class KeyboardInterruptLike(KeyboardInterrupt):
+    pass
+
+
+class UserBaseError(BaseException):
+    pass
+
+
+def replay_contextmanager(payload):
+    """C13: build a REAL async generator function that answers anext/athrow/aclose as the scenario says, run
+    asyncstdlib.contextmanager and contextlib.asynccontextmanager around it for the scenario's block outcome"""
+    import contextlib
+    import asyncstdlib
+    scen = payload["scenario"]
+    answers = [ans for ev, ans in (scen.get("trace") or []) if ev.startswith("gen ")]
+    oc = payload["job"].split("[")[1].rstrip("]")
+    first = answers[0] if answers else "yield"
+    second = answers[1] if len(answers) > 1 else "stop"
+
+    def make():
+        async def genfunc():
+            if first == "stop":
+                return
+            if first == "raise":
+                raise UserError("enter")
+            try:
+                yield "value"
+            except GeneratorExit:
+                if second == "raise-ignored":
+                    yield "again"
+                if second == "raise":
+                    raise UserError("closing")
+                raise
+            except BaseException as e:
+                if second == "stop":
+                    return
+                if second == "raise-same":
+                    raise
+                if second == "raise-new":
+                    raise UserError("new")
+                if second == "raise-rt-cause":
+                    raise RuntimeError("wrapped") from e
+                if second == "raise-same-type":
+                    raise type(e)()
+                if second == "yield":
+                    yield "again"
+            else:
+                if second == "yield":
+                    yield "again"
+                elif second == "raise":
+                    raise UserError("exit")
+        return genfunc
+    classes = {"UserError": UserError, "UserBaseError": UserBaseError, "StopIteration": StopIteration, "StopAsyncIteration": StopAsyncIteration,
+               "RuntimeError": RuntimeError, "GeneratorExit": GeneratorExit, "KeyboardInterrupt": KeyboardInterrupt}
+
+    async def run(factory):
+        cm = factory(make())()
+        log = []
+        try:
+            v = await cm.__aenter__()
+            log.append(("entered", v))
+        except BaseException as e:
+            return log + [("enter-raised", type(e).__name__)]
+        if oc == "none":
+            args = (None, None, None)
+            exc = None
+        else:
+            exc = classes[oc]("block")
+            args = (type(exc), exc, None)
+        try:
+            r = await cm.__aexit__(*args)
+            log.append(("suppress", bool(r)))
+        except BaseException as e:
+            log.append(("raised", "the block's exception" if e is exc else type(e).__name__,
+                        "cause is block exception" if e.__cause__ is exc and exc is not None else ""))
+        return log
+    a = asyncio.run(run(asyncstdlib.contextmanager))
+    if oc == "GeneratorExit":
+        # the property's deliberate difference: closed, and the same object propagates
+        if second in ("ok", "stop"):
+            b = [("entered", "value"), ("suppress", False)]
+        else:
+            b = None
+    else:
+        b = asyncio.run(run(contextlib.asynccontextmanager))
+    diffs = [] if (b is None or a == b) else [f"asyncstdlib.contextmanager: {a} vs contextlib.asynccontextmanager/spec: {b}"]
+    return {"confirmed": bool(diffs), "differences": diffs, "generator_answers": answers, "block_outcome": oc,
+            "impl_results": [str(x) for x in a], "ref_results": [str(x) for x in (b or [])]}
+
+
 def exc_repr(e):
     if isinstance(e, (UserError, Cancelled)):
         return ("raise-env", type(e).__name__, str(e))
@@ -405,6 +495,8 @@ def replay_scenario(payload):
     ik = {k: build_arg(ri, v) for k, v in payload["args"].get("ikw", {}).items()}
     ra = build_args(rr, payload["args"]["rargs"])
     rk = {k: build_arg(rr, v) for k, v in payload["args"].get("rkw", {}).items()}
+    if kind == "protocol" and payload["job"].startswith("contextmanager["):
+        return replay_contextmanager(payload)
     if kind == "protocol":
         proto = PROTOCOLS.get(payload["job"].split("[")[0])
         if proto is None:
